@@ -27,14 +27,16 @@ ASSUMPTIONS = ['data sets consist of distinct points', 'ties between equidistant
                'explicit proposals are members of the cluster being updated (one real proposal per sweep, the other '
                'clusters re-propose their current centre)',
                'python containers of centre indices may be updated in place; ndarray arguments may not']
-REACH_EXPECTED = ['pam_dst_dn', 'pam_dst_up_assig_other', 'pam_dst_up_assig_this', 'proposal_accepted',
+REACH_EXPECTED = ['rmsd_trajectory_data', 'pam_dst_dn', 'pam_dst_up_assig_other', 'pam_dst_up_assig_this', 'proposal_accepted',
                   'proposal_rejected', 'mpi_run', 'estimator_form', 'warm_start_state', 'cold_start_kmedoids',
                   'after_every_sweep_checked', 'cinds_as_pairs', 'cinds_as_ndarray', 'strided_input']
 
 
 def check(ctx, P, g, where, sut_exact=True):
     sc = None
-    if sut_exact and not P.metric_name.startswith('callable'):
+    if P.metric_name == 'rmsd':
+        sc = None          # last bits of an RMSD depend on the batch it is evaluated in
+    elif sut_exact and not P.metric_name.startswith('callable'):
         from enspara.cluster import util
         sc = util._get_distance_method(P.metric_name)
     elif sut_exact:
@@ -49,7 +51,7 @@ def scenario(ctx):
     mpi = t.flag(2, 5)
     deep = ctx.tier == 'thorough' and t.flag(1, 4)
     P = C.Problem(ctx, want_ranks=mpi, max_ranks=10 if deep else 6, max_frames=120 if deep else 48, max_traj=30 if deep else 24,
-                  max_len=12 if deep else 9)
+                  max_len=12 if deep else 9, allow_rmsd=True)
     if P.N == 1:
         mpi = False
     k, cutoff = P.draw_stop(ctx)
@@ -82,7 +84,7 @@ def scenario(ctx):
             init = t.perm(P.n)[:m]          # distinct frames in any order (e.g. the discovery order of an earlier run)
         spec = dict(algo='kcenters', form=form, k=k, cutoff=cutoff, tri=t.flag() and form == 'function')
         if init is not None:
-            spec['init_centers'] = P.X[init].copy()
+            spec['init_centers'] = P.wrap(P.X[init].copy())
         g = run(spec)
         check(ctx, P, g, 'k-centers (%s):' % form)
         if form == 'estimator' and not mpi:
@@ -172,8 +174,8 @@ def scenario(ctx):
             if changed:
                 require(g.ci == props, 'wrong_center_committed', lambda: 'proposed %s, centres became %s' % (props, g.ci))
             else:
-                require(np.array_equal(g.labels, st.labels) and np.array_equal(g.distances, st.distances),
-                        'rejected_state_changed', 'proposal rejected but labels/distances changed')
+                require(np.array_equal(g.labels, st.labels) and P.same_dist(g.distances, st.distances),
+                        'rejected_state_changed', lambda: 'proposal rejected but labels/distances changed: labels at %s, distances at %s (%s vs %s)' % (np.where(g.labels != st.labels)[0][:5].tolist(), np.where(g.distances != st.distances)[0][:5].tolist(), g.distances[g.distances != st.distances][:3].tolist(), st.distances[g.distances != st.distances][:3].tolist()))
         history.append(desc)
         st = clrun.State.of(g)
         ctx.steps += 1
